@@ -359,6 +359,172 @@ fn run_stimulus(tr: &Tracer, st: &Value) {
     let _ = SendPtr(0);
 }
 
+// ---------------------------------------------------------------------------------------------- rental traffic
+
+/// Harness-level hand-off of an endpoint between tasks.  The hand-off is a synchronisation the code under test relies
+/// on the caller for (endpoints are Send, not Sync), so it is logged as an acq-rel RMW on a harness-owned location and
+/// takes part in the happens-before relation of the recorded trace.
+struct Mailbox<T> {
+    q: Mutex<std::collections::VecDeque<T>>,
+    loc: usize,
+}
+impl<T> Mailbox<T> {
+    fn new(loc: usize) -> Self {
+        Self { q: Mutex::new(std::collections::VecDeque::new()), loc }
+    }
+    fn sync_event(&self) {
+        sched::emit(json!({"ev":"atomic","op":"swap","ord":"acqrel","ordf":"none","obs":0,"wr":0,"loc":addr_id(self.loc),"obj":0}));
+    }
+    fn push(&self, v: T) {
+        sched::point("mailbox.push");
+        self.q.lock().unwrap().push_back(v);
+        self.sync_event();
+    }
+    fn try_pop(&self) -> Option<T> {
+        sched::point("mailbox.pop");
+        let v = self.q.lock().unwrap().pop_front();
+        if v.is_some() {
+            self.sync_event();
+        }
+        v
+    }
+}
+
+fn traffic_task<S: Snd, R: Rcv>(me: usize, n_tasks: usize, cycles: usize, seed: u64, rent: std::sync::Arc<dyn Fn() -> (S, R) + Send + Sync>,
+                               boxes: std::sync::Arc<Vec<Mailbox<S>>>, done: std::sync::Arc<std::sync::atomic::AtomicUsize>) {
+    let mut rng = vrt::Rng::new(seed ^ (me as u64 * 7919));
+    let serve = |rng: &mut vrt::Rng| {
+        while let Some(s) = boxes[me].try_pop() {
+            if rng.chance(2, 3) {
+                s.send_it(Payload(7));
+            } else {
+                drop(s);
+            }
+        }
+    };
+    for _ in 0..cycles {
+        let (s, r) = rent();
+        let target = (me + 1 + rng.below(n_tasks as u64 - 1) as usize) % n_tasks;
+        boxes[target].push(s);
+        serve(&mut rng);
+        // receiver program on this task
+        let mut r = Some(r);
+        let mut polls = 0u32;
+        for _ in 0..(1 + rng.below(3)) {
+            let Some(mut rc) = r.take() else { break };
+            match rng.below(4) {
+                0 => {
+                    polls += 1;
+                    let w = make_waker(polls);
+                    let mut cx = Context::from_waker(&w);
+                    match Pin::new(&mut rc).poll(&mut cx) {
+                        Poll::Pending => r = Some(rc),
+                        Poll::Ready(Ok(p)) => {
+                            p.take();
+                        }
+                        Poll::Ready(Err(_)) => {}
+                    }
+                }
+                1 => {
+                    let _ = rc.ready();
+                    r = Some(rc);
+                }
+                2 => match rc.value() {
+                    Ok(p) => {
+                        p.take();
+                    }
+                    Err(IntoValueError::Pending(back)) => r = Some(back),
+                    Err(IntoValueError::Disconnected) => {}
+                },
+                _ => {
+                    serve(&mut rng);
+                    r = Some(rc);
+                }
+            }
+        }
+        drop(r);
+    }
+    done.fetch_add(1, Ordering::SeqCst);
+    // keep serving until every task has finished renting, so no sender is left in a mailbox
+    loop {
+        serve(&mut rng);
+        if done.load(Ordering::SeqCst) == n_tasks {
+            serve(&mut rng);
+            break;
+        }
+        let d = std::sync::Arc::clone(&done);
+        let b = std::sync::Arc::clone(&boxes);
+        sched::block_until("traffic.wait", move || d.load(Ordering::SeqCst) == n_tasks || !b[me].q.lock().unwrap().is_empty());
+    }
+}
+
+fn run_traffic(tr: &Tracer, st: &Value) {
+    reset_addr_ids();
+    let id = st["id"].as_u64().unwrap_or(0);
+    let storage = st["storage"].as_str().unwrap_or("pooled").to_string();
+    let n = st["tasks"].as_u64().unwrap_or(3) as usize;
+    let cycles = st["cycles"].as_u64().unwrap_or(3) as usize;
+    let seed = st["seed"].as_u64().unwrap_or(1);
+    tr.emit(&json!({"ev":"reset","id":id,"storage":storage,"traffic":true,"tasks":n,"cycles":cycles}));
+    let mut ex = Exec::new(if st["pct"].as_bool().unwrap_or(false) { Strategy::Pct { changes: 4 } } else { Strategy::Random }, seed);
+    ex.max_steps = 100_000;
+    let done = std::sync::Arc::new(std::sync::atomic::AtomicUsize::new(0));
+    let mut pool_len: Box<dyn Fn() -> i64> = Box::new(|| -1);
+    macro_rules! go {
+        ($S:ty, $R:ty, $rent:expr) => {{
+            let rent: std::sync::Arc<dyn Fn() -> ($S, $R) + Send + Sync> = std::sync::Arc::new($rent);
+            // mailbox locations get addresses of their own (leaked boxes) so that they have distinct small ids
+            let boxes: std::sync::Arc<Vec<Mailbox<$S>>> =
+                std::sync::Arc::new((0..n).map(|_| Mailbox::new(Box::leak(Box::new(0u8)) as *mut u8 as usize)).collect());
+            for me in 0..n {
+                let (rent, boxes, done) = (rent.clone(), boxes.clone(), done.clone());
+                ex.spawn(&format!("T{me}"), move || traffic_task(me, n, cycles, seed, rent, boxes, done));
+            }
+        }};
+    }
+    match storage.as_str() {
+        "pooled" => {
+            let pool: &'static EventPool<Payload> = Box::leak(Box::new(EventPool::new()));
+            pool_len = Box::new(move || pool.len() as i64);
+            go!(events_once::PooledSender<Payload>, events_once::PooledReceiver<Payload>, move || pool.rent());
+        }
+        "lake" => {
+            let lake: &'static EventLake = Box::leak(Box::new(EventLake::new()));
+            pool_len = Box::new(move || lake.len() as i64);
+            go!(events_once::PooledSender<Payload>, events_once::PooledReceiver<Payload>, move || lake.rent::<Payload>());
+        }
+        "raw_pooled" => {
+            let pool: &'static RawEventPool<Payload> = Box::leak(Box::new(RawEventPool::new()));
+            pool_len = Box::new(move || pool.len() as i64);
+            // SAFETY: the pool is leaked, hence pinned and alive for as long as any endpoint
+            go!(events_once::RawPooledSender<Payload>, events_once::RawPooledReceiver<Payload>, move || unsafe { Pin::new_unchecked(pool).rent() });
+        }
+        "raw_lake" => {
+            let lake: &'static RawEventLake = Box::leak(Box::new(RawEventLake::new()));
+            pool_len = Box::new(move || lake.len() as i64);
+            // SAFETY: the lake is leaked and outlives all endpoints
+            go!(events_once::RawPooledSender<Payload>, events_once::RawPooledReceiver<Payload>, move || unsafe { lake.rent::<Payload>() });
+        }
+        _ => {
+            go!(events_once::BoxedSender<Payload>, events_once::BoxedReceiver<Payload>, || Event::<Payload>::boxed());
+        }
+    }
+    let rep = ex.run();
+    for v in &rep.log {
+        tr.emit(v);
+    }
+    let completed = matches!(rep.outcome, Outcome::Completed);
+    let outcome = match &rep.outcome {
+        Outcome::Completed => "completed",
+        Outcome::Deadlock(_) => "deadlock",
+        Outcome::StepLimit => "steplimit",
+        Outcome::Stuck(_) => "stuck",
+    };
+    tr.emit(&json!({"ev":"end","id":id,"outcome":outcome,"drift":0,
+        "panics": rep.panics.iter().map(|p| p.clone().unwrap_or_default()).collect::<Vec<_>>(),
+        "pool_len": if completed { pool_len() } else { -1 }, "steps": rep.steps.len()}));
+}
+
 fn main() {
     vrt::quiet_panics();
     install_hooks();
@@ -368,6 +534,12 @@ fn main() {
             let tr = Tracer::create(&args[3]);
             for st in vrt::read_ndjson(&args[2]) {
                 run_stimulus(&tr, &st);
+            }
+        }
+        Some("traffic") => {
+            let tr = Tracer::create(&args[3]);
+            for st in vrt::read_ndjson(&args[2]) {
+                run_traffic(&tr, &st);
             }
         }
         Some("local") => local::run(&args[2], &args[3]),
